@@ -15,7 +15,7 @@ Inductive expr :=
 | EAnd (a b : expr) | EOr (a b : expr) | EIf (c t f : expr)          (* t if c else f *)
 | EIndex (a i : expr) | ESlice (a : expr) (lo hi st : option expr)
 | ECall (f : expr) (args : list expr) (kwargs : list (string * expr)) (star : option expr) (dstar : option expr)
-| EMeth (recv : expr) (m : string) (args : list expr)                 (* recv.m(args) *)
+| EMeth (recv : expr) (m : string) (args : list expr) (kwargs : list (string * expr))   (* recv.m(args, name=e, ...) *)
 | ELambda (ps : list param) (body : expr)
 | EListComp (e : expr) (cls : list clause)
 | EDictComp (k v : expr) (cls : list clause)
